@@ -128,6 +128,22 @@ class FalsyGlomErr(GlomError):
         return False
 
 
+class MyTypeMatchErr(TypeMatchError):
+    pass
+
+
+class MyMatchErr(MatchError):
+    pass
+
+
+class MyCheckErr(CheckError):
+    pass
+
+
+class MyPathAccessErr(PathAccessError):
+    pass
+
+
 class MyBase(BaseException):
     pass
 
@@ -161,6 +177,9 @@ CATALOGUE = [
     ('FileNotFoundError(package path)', lambda: FileNotFoundError(2, 'No such file or directory', os.path.join(os.path.dirname(g.__file__), 'no_such_data.txt'))),
     ('UserErr(package path)', lambda: UserErr('could not load %s' % os.path.join(os.path.dirname(g.__file__), 'core.py'), code=5)),
     ('ValueError(multi-line)', lambda: ValueError('bad input\n\n    x = = 1\n        ^\nunexpected token')),
+    # a user's subclasses of the library's more specific error classes (raised by the user's own validators / accessors)
+    ('MyTypeMatchErr', lambda: MyTypeMatchErr(int, str)), ('MyMatchErr', lambda: MyMatchErr('custom mismatch {0}', 5)),
+    ('MyCheckErr', lambda: MyCheckErr(['custom check failed'], Check(), ['p'])), ('MyPathAccessErr', lambda: MyPathAccessErr(KeyError('k'), Path('a', 'k'), 1)),
     ('MyGlomErr(multi-line)', lambda: MyGlomErr('line one\n  ~~~~\n', 2)),
 ]
 
@@ -461,6 +480,8 @@ def target_raised_faults(col, rng, n_exc):
             probe = mkexc()
             if native and isinstance(probe, native):
                 continue
+            if isinstance(probe, PathAccessError) and 'star' in name:
+                continue      # behind a wildcard a PathAccessError of a child (of any subclass) means "this child lacks the rest of the path"
             for cell, kw in matrix(probe):
                 e = mkexc()
                 f.exc = e
